@@ -269,6 +269,16 @@ theorem cex_star_greedy_splits_rune :
     PathMatch.pathMatch [42, 63, 42, 0xAC] [0xE2, 0x82, 0xAC] = some false ∧
     specMatch [42, 63, 42, 0xAC] [0xE2, 0x82, 0xAC] = some true := by decide
 
+open Logrange.PathSpec in
+/-- the same on plain ASCII: a class may match `/` but `*` may not, and the committed leftmost position is not revised.
+`**[^a]*` against `*x*]/`: the specification lets the stars take `*x*]`, the class the `/` and the last star nothing;
+`path.Match` commits the class to the first byte and then cannot get the last `*` over the `/`. (Found by the C05
+harness, seed 4.) LIKE's meaning in logrange is `path.Match` as implemented (`evalRef` uses the model of the
+algorithm), so this is a property of Go's library, not a defect of the WHERE evaluator. -/
+theorem cex_star_greedy_class_slash :
+    PathMatch.pathMatch [42, 42, 91, 94, 97, 93, 42] [42, 120, 42, 93, 47] = some false ∧
+    specMatch [42, 42, 91, 94, 97, 93, 42] [42, 120, 42, 93, 47] = some true := by decide
+
 /-- the constants the model reads are the documented ones -/
 theorem code_constants_as_documented :
     Generated.C05.cmpContains = sCONTAINS ∧ Generated.C05.cmpHasPrefix = sPREFIX ∧
